@@ -207,14 +207,16 @@ pub fn gen_case(seed: u64, shard: u64, index: u64) -> TCase {
             "kid-cycle"
         }
         1 => {
-            // kids that are not dictionaries / not references
+            // kids that are not dictionaries / not references (among them a stream that calls itself a page)
+            let sid = doc.max_num() + 1;
+            doc.objects.insert((sid, 0), RObj::Stream(vec![(b"Type".to_vec(), name("Page")), (b"Parent".to_vec(), RObj::Ref(root_id, 0))], b"q Q".to_vec()));
             for id in &ids {
                 if let Some(RObj::Dict(d)) = doc.objects.get_mut(id) {
                     for (kk, v) in d.iter_mut() {
                         if kk == b"Kids" {
                             if let RObj::Array(a) = v {
                                 let at = r.usize_below(a.len() + 1);
-                                let junk = [RObj::Null, RObj::Int(3), RObj::Ref(1, 0), RObj::Ref(999_999, 0), RObj::Array(vec![])];
+                                let junk = [RObj::Null, RObj::Int(3), RObj::Ref(1, 0), RObj::Ref(999_999, 0), RObj::Array(vec![]), RObj::Ref(sid, 0), RObj::Ref(sid, 0)];
                                 a.insert(at, r.pick(&junk).clone());
                             }
                         }
